@@ -706,7 +706,8 @@ func (f *File) CopySampleData(w io.Writer, rs io.ReadSeeker, trak *TrakBox,
 				for nrLeft > 0 {
 					end := min(workLen, workPos+nrLeft)
 					n, err := rs.Read(workSpace[workPos:end])
-					if err != nil {
+					if err != nil && (err != io.EOF || n < nrLeft) {
+						// io.Reader allows the last bytes to arrive together with io.EOF
 						return err
 					}
 					nrLeft -= n
